@@ -474,7 +474,7 @@ func (r *pendingData) moveToWithoutLock(toBuf *linkedBuffer) {
 	if len(r.unread) == 0 {
 		return
 	}
-	preLen := toBuf.Len()
+	preLen := toBuf.len
 	for i := range r.unread {
 		if r.unread[i].fallbackSlice != nil {
 			toBuf.appendBufferSlice(r.unread[i].fallbackSlice)
@@ -518,7 +518,7 @@ func (r *pendingData) moveToWithoutLock(toBuf *linkedBuffer) {
 			offset = slice.nextBufferOffset()
 		}
 	}
-	atomic.AddUint64(&r.stream.session.stats.inFlowBytes, uint64(toBuf.Len()-preLen))
+	atomic.AddUint64(&r.stream.session.stats.inFlowBytes, uint64(toBuf.len-preLen))
 	r.unread = r.unread[:0]
 }
 
